@@ -13,6 +13,7 @@ import (
 	"bytes"
 	"fmt"
 	"io"
+	"io/fs"
 	"os"
 
 	"gitlab.com/gomidi/midi/v2"
@@ -182,6 +183,46 @@ func writeFaultsOn(base *sp.Inst, detail func(what string) map[string]interface{
 			}
 		}
 	}
+	// destinations that fail with error values a caller may be tempted to read
+	// as "nothing more to do" (io.EOF from a closed channel, wrapped or bare)
+	for _, ev := range []struct {
+		name string
+		err  error
+	}{{"io.EOF", io.EOF}, {"io.ErrUnexpectedEOF", io.ErrUnexpectedEOF}, {"io.ErrShortWrite", io.ErrShortWrite}, {"io.ErrClosedPipe", io.ErrClosedPipe}, {"wrapped-EOF", fmt.Errorf("write: %w", io.EOF)}, {"path-error-EOF", &fs.PathError{Op: "write", Path: "dest", Err: io.EOF}}} {
+		for _, mode := range []string{"short", "call", "full"} {
+			step := 1
+			if len(out) > 400 {
+				step = 5
+			}
+			for k := 0; k <= len(out); k += step {
+				in := base.Clone()
+				fw := &faultio.FailWriter{At: k, Mode: mode, Err: ev.err}
+				var err error
+				c := engine.Catch(func() { _, err = in.S.WriteTo(fw) })
+				ctx.Eval()
+				if fw.Fired == 0 {
+					continue
+				}
+				ctx.NontrivialN(1)
+				sig, what := "", ""
+				switch {
+				case c.Panicked:
+					sig, what = c.Sig+":write-fault:"+ev.name, "WriteTo panicked: "+c.Value
+				case err == nil:
+					sig = "write-nil:" + ev.name + ":fault-in-" + region(out, k) + ":" + mode
+					what = fmt.Sprintf("destination failed with %s at offset %d of %d but WriteTo returned nil", ev.name, k, len(out))
+				}
+				if sig != "" && ctx.SigCount(sig) < 10 {
+					d := detail(what)
+					d["kind"] = "write-fault"
+					d["fault_at"] = k
+					d["mode"] = mode
+					d["error_value"] = ev.name
+					ctx.Violation(sig, d)
+				}
+			}
+		}
+	}
 	// transient failures: exactly one Write call is rejected (or cut short)
 	for _, mode := range []string{"once", "once-short", "once-full"} {
 		for j := 1; j <= 8; j++ {
@@ -253,7 +294,9 @@ func readFaults(data []byte, label string) {
 		name string
 		err  error
 		once bool
-	}{{"unexpected-eof-error", io.ErrUnexpectedEOF, false}, {"closed-pipe-error", io.ErrClosedPipe, false}, {"error-once-then-eof", nil, true}, {"unexpected-eof-once-then-eof", io.ErrUnexpectedEOF, true}} {
+	}{{"unexpected-eof-error", io.ErrUnexpectedEOF, false}, {"closed-pipe-error", io.ErrClosedPipe, false}, {"error-once-then-eof", nil, true}, {"unexpected-eof-once-then-eof", io.ErrUnexpectedEOF, true},
+		{"wrapped-eof-error", fmt.Errorf("read: %w", io.EOF), false}, {"path-error-eof", &fs.PathError{Op: "read", Path: "source", Err: io.EOF}, false},
+		{"wrapped-unexpected-eof-error", fmt.Errorf("read: %w", io.ErrUnexpectedEOF), false}, {"short-buffer-error", io.ErrShortBuffer, false}, {"no-progress-error", io.ErrNoProgress, false}} {
 		for k := 0; k < len(data); k++ {
 			fr := &faultio.FailReader{Data: data, At: k, Err: v.err, Once: v.once}
 			var err error
